@@ -215,7 +215,7 @@ func sortBytes(s string) string {
 // buffered says whether the configuration makes the middleware hold the response
 // body back for phase 4 (body access on and the handler's Content-Type listed).
 func buffered(sc Scenario) string {
-	if sc.Conf.RespAccess && sc.CT != "" && sc.CT == sc.Conf.Mime {
+	if (sc.Conf.RespAccess || sc.Conf.RespCtl) && sc.CT != "" && sc.CT == sc.Conf.Mime {
 		return "buffered/" + sc.Conf.RespAction
 	}
 	return "unbuffered"
@@ -377,6 +377,13 @@ func respConfs() []Conf {
 				c.RespAccess, c.RespAction, c.Mime = true, act, mime
 				out = append(out, c)
 			}
+		}
+	}
+	// response body access configured Off and switched on by a phase-3 ctl: a phase-4 interruption must still hold
+	// every body byte back
+	for _, r := range []Rule{{}, {4, "deny"}, {4, "redirect"}} {
+		for _, act := range []string{"Reject", "ProcessPartial"} {
+			out = append(out, Conf{Rule: r, ReqAccess: true, ReqLimit: reqLimit, ReqAction: "Reject", RespLimit: respLimit, RespAction: act, Mime: "text/plain", RespCtl: true})
 		}
 	}
 	// DetectionOnly: a limit of action Reject and a would-be deny only record; the exchange must pass through intact
